@@ -450,6 +450,11 @@ unsigned int Matrix::Columns() const
 
 void Matrix::Resize(int row, int col)
 {
+	if(row < 0 || col < 0)
+	{
+		std::cerr << "Error in libphysica::Matrix::Resize(): Negative dimension (" << row << "x" << col << ")." << std::endl;
+		std::exit(EXIT_FAILURE);
+	}
 	rows	= row;
 	columns = col;
 	components.resize(row);
@@ -461,6 +466,11 @@ void Matrix::Resize(int row, int col)
 
 void Matrix::Assign(int row, int col, double entry)
 {
+	if(row < 0 || col < 0)
+	{
+		std::cerr << "Error in libphysica::Matrix::Assign(): Negative dimension (" << row << "x" << col << ")." << std::endl;
+		std::exit(EXIT_FAILURE);
+	}
 	rows	= row;
 	columns = col;
 	components.resize(row);
